@@ -354,6 +354,27 @@ func isConstruction(base ssa.Value) bool {
 		}
 		return true
 	}
+	// the result of a constructor helper: a module function every return of which hands back an object
+	// it allocated itself
+	if call, ok := root.(*ssa.Call); ok {
+		if g := staticCallee(&call.Call); g != nil && InModule(g) && len(g.Blocks) > 0 {
+			n := 0
+			for _, b := range g.Blocks {
+				r, ok := b.Instrs[len(b.Instrs)-1].(*ssa.Return)
+				if !ok {
+					continue
+				}
+				n++
+				if len(r.Results) == 0 {
+					return false
+				}
+				if a, isAlloc := lookThrough(r.Results[0]).(*ssa.Alloc); !isAlloc || !a.Heap {
+					return false
+				}
+			}
+			return n > 0
+		}
+	}
 	return false
 }
 
